@@ -608,12 +608,42 @@ func verifLemmaMaxBodyTight(c *channelInstance, m *Message, chunkSize int, chunk
 // response handler: without an error the handler ran (once, on a non-nil response) and returned nil.
 // (Request header mutation of req and transport state are not modelled; no verified caller reads them.)
 //@ func (*SecureChannel).SendRequest
-//@   props C22 C21
-//@   assumed
+//@   props C18 C22 C21
+//@   frame_only
 //@   requires s != nil
-//@   assigns map(s.handlers), any SecureChannel.requestID, any channelInstance.sequenceNumber
-//@   calls h nonnil
-//@   ensures h != nil && err == nil ==> ran_h && res_h == nil
+//@   assigns *
+//@   calls h
+//@   ensures [C18:handler-ran] h != nil && err == nil ==> ran_h && res_h == nil
+
+//@ func (*SecureChannel).SendRequestWithTimeout
+//@   props C18
+//@   frame_only
+//@   requires s != nil
+//@   assigns *
+//@   calls h
+//@   ensures [C18:handler-ran] h != nil && err == nil ==> ran_h && res_h == nil
+
+// The caller's side of the request/response pairing: a nil error comes only from the caller's own
+// handler, which ran exactly once on the message delivered for this request id and returned nil; every
+// other exit (send failure, context done, disconnect, timeout, error status) is a non-nil error.
+// (assumed about the caller's handler: it cannot reach the MessageBody the response is taken from -- it is
+// handed msg.Response() only, and the message is a local of this function)
+//@ func (*SecureChannel).sendAsyncWithTimeout@any
+//@   props C18
+//@   assumed
+//@   assigns *
+
+//@ func (*SecureChannel).sendRequestWithTimeout
+//@   props C18
+//@   frame_only
+//@   use (*SecureChannel).sendAsyncWithTimeout@any
+//@   requires s != nil
+//@   assigns *
+//@   calls h frame allbut MessageBody
+//@   after "ctx.Err()" assigns nothing
+//@   after "ctx.Err()" ensures result != nil
+//@   ensures [C18:handler-ran] h != nil && err == nil ==> ran_h && res_h == nil
+//@   canary ensures [C18:canary-handler-always-runs] h != nil ==> ran_h
 
 //@ func (*SecureChannel).VerifySessionSignature
 //@   props C22
